@@ -14,6 +14,7 @@ var verifPanicObservers sync.Map // *WorkerLoop -> func(interface{})
 // VerifObserveRecoveredPanics registers an observer for panics that handleRawMessage recovers from.
 func (lh *WorkerLoop) VerifObserveRecoveredPanics(f func(r interface{})) {
 	verifPanicObservers.Store(lh, f)
+	lh.filter.VerifObserveRecoveredPanics(f)
 }
 
 func verifRecovered(lh *WorkerLoop, r interface{}) {
